@@ -15,13 +15,28 @@ IO_WRITE = "std::io::Write"
 
 
 def index_entries(body, tb):
-    """[(tag_variant, data_term_rendered, Call)] for every IndexEntry::new in body."""
+    """[(tag_variant, data_term_rendered, Call)] for every IndexEntry::new in body - including the ones made inside closures it
+    hands to iterator / Option adaptors, and one row per element when the tag and value come from an array literal being iterated
+    (`[(TAG_A, self.a), (TAG_B, self.b)].into_iter().filter_map(|(tag, v)| v.map(|v| IndexEntry::new(tag, off, ..)))`)."""
+    from idioms import expand_rows
     out = []
-    for c in body.calls():
-        if re.search(r"IndexEntry::<.*>::new$", c.decl):
-            tt = strip_proj(tb.term(c.args[0]))
-            tag = tt[1].rsplit("::", 1)[-1] if tt[0] == "agg" else render(tt)
-            out.append((tag, render(tb.term(c.args[2])), c))
+    facts = getattr(body, "facts", None)
+    work = [(body, tb)]
+    seen = set()
+    while work:
+        b, t_ = work.pop(0)
+        if b.path in seen:
+            continue
+        seen.add(b.path)
+        for c in b.calls():
+            if re.search(r"IndexEntry::<.*>::new$", c.decl):
+                for (tt0, dd0) in expand_rows((t_.term(c.args[0]), t_.term(c.args[2]))):
+                    tt = strip_proj(tt0)
+                    tag = tt[1].rsplit("::", 1)[-1] if tt[0] == "agg" else render(tt)
+                    out.append((tag, render(dd0), c))
+        if facts is not None:
+            for cb in facts.closures_of(b):
+                work.append((cb, TermBuilder(cb, closure_env=True)))
     return out
 
 
